@@ -162,9 +162,11 @@ CLAIMS = {
                 "between objects, blanks around '=', blank runs between words, newline / ';' / trailing comment / end of input as terminators, brace placement, '!', nested braces "
                 "or dotted names) is sound - every spelling of a tree parses to that tree - hence any two spellings of one tree parse alike, dotted and braced spellings agree up to the "
                 "merge flag, the printer's layout is one of the spellings, and the grammar is generated by decorated trees; each restriction of the grammar is shown necessary by an "
-                "Example. Local theorems: layout in front of any object at any depth (exact equality of collect_objects one position later), blanks around '=', newline versus ';', "
+                "Example. Stage B (RendersB) adds backslash continuation lines, attribute lines of definitions and scopes (oracle-free values; attributes are KEPT by the erasure) and the "
+                "#phil __ON__/__OFF__/__END__ directives, with soundness, agreement (also up to the order of attribute lines), inclusion of stage A and 'the printer's output is a "
+                "rendering at every width'. Local theorems: layout in front of any object at any depth (exact equality of collect_objects one position later), blanks around '=', newline versus ';', "
                 "trailing comment, '!' disables exactly one construct (identical results and errors otherwise), fuel irrelevance, token-level layout insensitivity. NOT in the grammar: "
-                "continuation lines, attributes, off regions - decided on every run by executing freephil and the extracted parser on bounded-exhaustive + random renderings of "
+                "in-quote continuation lines, .type/.call attribute values, include lines, an OFF region open to the end of input - decided on every run by executing freephil and the extracted parser on bounded-exhaustive + random renderings of "
                 "abstract trees from the layout sampler and by the oracle comparing with the abstract tree.",
         "note": "Trusted: Coq kernel, extraction, driver, harness, hand-written model of tokenizer.py/parser.py, the layout grammar's notion of rendering. "
                 "Oracles: .type/.call construction, eval-based integers.",
